@@ -768,6 +768,44 @@ def fetchBodyAtt (fuel dp : Nat) (guard : Bool) : P Unit := do
   let b ← readBody guard fuel dp 0
   setCur fun m => { m with body := some b.out, bodyDepth := b.depth }
 
+/-- `BODY[` starts a body section (a literal follows): outside the modelled fragment -/
+def noSection (name : Bytes) : P Unit := do
+  if name == strB "BODY" then
+    if ← special 91 then unmodelled
+
+/-- fetch.go handleFetch, the `switch attName`: the data of one msg-att -/
+def fetchAttData (fuel dp : Nat) (guard : Bool) (name : Bytes) : P Unit :=
+  if name == strB "FLAGS" then do
+    expectSP
+    -- internal.ExpectFlagList, counting the flags
+    if !(← special 40) then fail
+    else if ← special 41 then setCur fun m => { m with flags := 0 }
+    else do
+      let _ ← enter dp
+      let n ← flagLoop fuel 0
+      setCur fun m => { m with flags := n }
+  else if name == strB "ENVELOPE" then do
+    expectSP; readEnvelope fuel dp; setCur fun m => { m with env := true }
+  else if name == strB "RFC822.SIZE" then do
+    expectSP; let n ← expectNumber64; setCur fun m => { m with size := n }
+  else if name == strB "UID" then do
+    expectSP; let n ← expectNumber; setCur fun m => { m with uid := n }
+  else if name == strB "BODY" || name == strB "BODYSTRUCTURE" then do
+    noSection name
+    fetchBodyAtt fuel dp guard
+  else if name == strB "BINARY" then do
+    if ← special 91 then unmodelled else fail
+  else if name == strB "MODSEQ" then do
+    expectSP; expectSpecial 40; let n ← expectModSeq; expectSpecial 41; setCur fun m => { m with modSeq := n }
+  else if name == strB "INTERNALDATE" || name == strB "BINARY.SIZE" then unmodelled
+  else fail
+
+/-- `numAtts++`; beyond the capacity of the items channel the message is handed over early -/
+def bumpAtts (seq : Nat) : P Unit :=
+  modifyCS fun cs =>
+    let cs := { cs with cur := { cs.cur with numAtts := cs.cur.numAtts + 1 } }
+    if cs.cur.numAtts > 32 then handleMsg seq cs else cs
+
 /-- fetch.go handleFetch: one msg-att -/
 def fetchAtt (fuel dp : Nat) (guard : Bool) (seq : Nat) : P Unit := do
   match ← func isMsgAttNameChar with
@@ -775,36 +813,9 @@ def fetchAtt (fuel dp : Nat) (guard : Bool) (seq : Nat) : P Unit := do
   | some nameRaw =>
     match upper? nameRaw with
     | none => unmodelled
-    | some name =>
-      if name == strB "FLAGS" then do
-        expectSP
-        -- internal.ExpectFlagList, counting the flags
-        if !(← special 40) then fail
-        else if ← special 41 then setCur fun m => { m with flags := 0 }
-        else do
-          let _ ← enter dp
-          let n ← flagLoop fuel 0
-          setCur fun m => { m with flags := n }
-      else if name == strB "ENVELOPE" then do
-        expectSP; readEnvelope fuel dp; setCur fun m => { m with env := true }
-      else if name == strB "RFC822.SIZE" then do
-        expectSP; let n ← expectNumber64; setCur fun m => { m with size := n }
-      else if name == strB "UID" then do
-        expectSP; let n ← expectNumber; setCur fun m => { m with uid := n }
-      else if name == strB "BODY" || name == strB "BODYSTRUCTURE" then do
-        if name == strB "BODY" then
-          if ← special 91 then unmodelled
-        fetchBodyAtt fuel dp guard
-      else if name == strB "BINARY" then do
-        if ← special 91 then unmodelled else fail
-      else if name == strB "MODSEQ" then do
-        expectSP; expectSpecial 40; let n ← expectModSeq; expectSpecial 41; setCur fun m => { m with modSeq := n }
-      else if name == strB "INTERNALDATE" || name == strB "BINARY.SIZE" then unmodelled
-      else fail
-      -- numAtts++; beyond the capacity of the items channel the message is handed over early
-      modifyCS fun cs =>
-        let cs := { cs with cur := { cs.cur with numAtts := cs.cur.numAtts + 1 } }
-        if cs.cur.numAtts > 32 then handleMsg seq cs else cs
+    | some name => do
+      fetchAttData fuel dp guard name
+      bumpAtts seq
 
 /-- fetch.go handleFetch; the message read so far is handed over even when the response fails
     to parse half-way (`defer handleMsg()`) -/
